@@ -13,14 +13,35 @@
   The one documented panic — `rewind` without a mark — is stated as such.
 -/
 import QV.Proofs.Reader
+import QV.Properties.C18
 
 namespace QV.C15
 open QV QV.Wire QV.Reader QV.Spec
 
-/-- what the reader needs from `Rdata::read` (proved for the RDATA model in C18) -/
+/-- what the reader needs from `Rdata::read` (proved for the RDATA model in C18, see
+    `C15_rdata_model_ok` below): it does not panic on arguments in the range of the Rust types
+    (`rdlength : u16`, `cursor + rdlength` representable in `usize`), and RDATA it accepts lies
+    inside the message -/
 structure RdReadOK (rdr : RdRead) : Prop where
-  no_panic : ∀ c t m cur len, rdr c t m cur len ≠ .panic
+  no_panic : ∀ c t m cur len, len ≤ 65535 → cur + len ≤ 18446744073709551615 → rdr c t m cur len ≠ .panic
   inside : ∀ c t m cur len rd, rdr c t m cur len = .ok rd → cur + len ≤ m.size
+
+/-- messages are far smaller than the address space (the server reads at most 65535 octets) -/
+def SizeOK (r : Reader) : Prop := r.octets.size ≤ 4294967295
+
+theorem be16_lt (b : Bytes) (pos : Nat) : be16 b pos < 65536 := by
+  unfold be16
+  have h1 := (b.getD pos 0).toNat_lt
+  have h2 := (b.getD (pos + 1) 0).toNat_lt
+  omega
+
+theorem readU16At_lt (b : Bytes) (pos v : Nat) (h : readU16At b pos = .ok v) : v < 65536 := by
+  unfold readU16At at h
+  split at h
+  · cases h
+  · split at h
+    · cases h; exact be16_lt _ _
+    · cases h
 
 /-! ### construction and invariant -/
 
@@ -332,7 +353,7 @@ theorem C15_peek_accessors (r : Reader) (p : PeekRr) (h : peekRr r = .ok p) :
 
 /-! ### read_rr and peek_rr + parse -/
 
-theorem C15_read_rr_no_panic (rdr : RdRead) (hr : RdReadOK rdr) (r : Reader) (hi : Inv r) :
+theorem C15_read_rr_no_panic (rdr : RdRead) (hr : RdReadOK rdr) (r : Reader) (hi : Inv r) (hsz : SizeOK r) :
     (readRr rdr r).1 ≠ .panic := by
   unfold readRr
   cases hp : parseCompressed r.octets r.cursor with
@@ -363,9 +384,11 @@ theorem C15_read_rr_no_panic (rdr : RdRead) (hr : RdReadOK rdr) (r : Reader) (hi
           | panic => exact absurd h4 (readU16At_no_panic _ _ (by omega))
           | err e => simp
           | ok rdlen =>
+            have b4 := readU16At_ok_bound _ _ _ h4
+            have l4 := readU16At_lt _ _ _ h4
             simp only
             cases h5 : rdr cl ty r.octets (r.cursor + p.len + 10) rdlen with
-            | panic => exact absurd h5 (hr.no_panic _ _ _ _ _)
+            | panic => exact absurd h5 (hr.no_panic _ _ _ _ _ (by omega) (by unfold SizeOK at hsz; omega))
             | err e => simp
             | ok rd => simp
 
@@ -468,7 +491,7 @@ theorem C15_read_rr_inv (rdr : RdRead) (hr : RdReadOK rdr) (r : Reader) (hi : In
   | panic => rw [C15_read_rr_atomic rdr r (by simp [h, Out.isOk])]; exact hi
 
 /-- `PeekRr::parse` never panics and is atomic -/
-theorem C15_peek_parse_no_panic (rdr : RdRead) (hr : RdReadOK rdr) (r : Reader) (p : PeekRr)
+theorem C15_peek_parse_no_panic (rdr : RdRead) (hr : RdReadOK rdr) (r : Reader) (hsz : SizeOK r) (p : PeekRr)
     (h : peekRr r = .ok p) : (p.parse rdr).1 ≠ .panic := by
   obtain ⟨hr0, a1, a2, a3, a4, a5, a6, a7⟩ := C15_peek_accessors r p h
   unfold PeekRr.parse PeekRr.owner
@@ -480,7 +503,9 @@ theorem C15_peek_parse_no_panic (rdr : RdRead) (hr : RdReadOK rdr) (r : Reader) 
     simp only [a1, a2, a4, a5]
     cases h5 : rdr (be16 r.octets (p.ownerEnd + 2)) (be16 r.octets p.ownerEnd) r.octets (p.ownerEnd + 10)
         (be16 r.octets (p.ownerEnd + 8)) with
-    | panic => exact absurd h5 (hr.no_panic _ _ _ _ _)
+    | panic =>
+      have := be16_lt r.octets (p.ownerEnd + 8)
+      exact absurd h5 (hr.no_panic _ _ _ _ _ (by omega) (by unfold SizeOK at hsz; omega))
     | err e => simp
     | ok rd => simp
 
@@ -586,6 +611,51 @@ theorem C15_peek_parse_eq_read_rr (rdr : RdRead) (hr : RdReadOK rdr) (r : Reader
         rw [r3]; simp only
         rw [r4]; simp only
         rw [h5, hoe, a6]
+
+/-! ### the RDATA model of C18 provides what the reader needs -/
+
+/-- `Rdata::read` of the RDATA model, seen through the reader's interface -/
+def rdataModel : RdRead := fun c t msg cur len =>
+  match Rdata.read c t msg cur len with
+  | .ok b => .ok b.toList
+  | .err e => .err e.toString
+  | .panic => .panic
+
+theorem C15_rdata_model_ok : RdReadOK rdataModel := by
+  constructor
+  · intro c t m cur len hl ho
+    unfold rdataModel
+    have := C18.C18_read_no_panic c t m cur len hl (by unfold Rdata.USIZE_MAX; omega)
+    cases h : Rdata.read c t m cur len <;> simp_all
+  · intro c t m cur len rd h
+    unfold rdataModel at h
+    cases h2 : Rdata.read c t m cur len with
+    | ok b => exact (C18.C18_read_sound c t m cur len b h2).2.1
+    | err e => rw [h2] at h; cases h
+    | panic => rw [h2] at h; cases h
+
+/-- **C15 for the real RDATA reader**: reading a record never panics -/
+theorem C15_read_rr_total (r : Reader) (hi : Inv r) (hsz : SizeOK r) : (readRr rdataModel r).1 ≠ .panic :=
+  C15_read_rr_no_panic rdataModel C15_rdata_model_ok r hi hsz
+
+/-- … and what it returns is RDATA the C18 specification assigns to that region of the message
+    (embedded names decompressed per RFC 1035 §4.1.4), validated -/
+theorem C15_read_rr_rdata_spec (r : Reader) (hi : Inv r) (rr : Rr) (r' : Reader)
+    (h : readRr rdataModel r = (.ok rr, r')) :
+    ∃ rdpos rdlen, RrHeaderAt r.octets r.cursor rr.owner rr.rrType rr.cls rr.ttl rdpos rdlen r'.cursor ∧
+      Spec.SpecRead rr.cls rr.rrType r.octets rdpos rdlen rr.rdata := by
+  obtain ⟨rdpos, rdlen, hh, h5, _, _⟩ := (C15_read_rr_iff rdataModel C15_rdata_model_ok r hi rr r').mp h
+  refine ⟨rdpos, rdlen, hh, ?_⟩
+  unfold rdataModel at h5
+  cases h2 : Rdata.read rr.cls rr.rrType r.octets rdpos rdlen with
+  | ok b =>
+    rw [h2] at h5
+    have e : rr.rdata = b.toList := by
+      simp only at h5; injection h5 with h5; exact h5.symm
+    rw [e]
+    exact (C18.C18_read_sound _ _ _ _ _ b h2).2
+  | err e => rw [h2] at h5; cases h5
+  | panic => rw [h2] at h5; cases h5
 
 /-! ### mark / rewind -/
 
